@@ -123,7 +123,7 @@ def check(ctx, need):
         ctx.ob(len(hb) == 1, '%s: one hand-off site' % nm, 'read|%s|handoff-site' % nm, loc=v.loc())
         for c in hb:
             a = show(c.arg(1))
-            m = re.match(r'^Index<I> for \[T; N\]>::index\(inbound_data, RangeTo\{end: (.*)@Ok\.0\}\)$', a)
+            m = re.match(r'^Index::index\(inbound_data, RangeTo\{end: (.*)@Ok\.0\}\)$', a)
             ok = m is not None
             if ok:
                 n = m.group(1) + '@Ok.0'
@@ -164,14 +164,14 @@ def check(ctx, need):
             ok = re.match(r'^Index::index\(self\.data, Range(From)?\{start: self\.index', src) is not None
             ctx.ob(ok, 'the copy source starts at the message cursor (found %s)' % src[:90], 'ws|cursor-source', loc=c.loc())
             dst = show(c.arg(0))
-            ctx.ob(re.match(r'^IndexMut<I> for \[T\]>::index_mut\(dest, RangeTo\{end: ', dst) is not None, 'the copy destination is the head of the destination slice it was given', 'ws|cursor-dest', loc=c.loc())
+            ctx.ob(re.match(r'^IndexMut::index_mut\(dest, RangeTo\{end: ', dst) is not None, 'the copy destination is the head of the destination slice it was given', 'ws|cursor-dest', loc=c.loc())
         adv = [(i, s, pe, rve) for (i, s, pe, rve) in mc.field_writes() if show(pe) == 'self.index']
         ctx.ob(len(adv) == 1 and show(adv[0][3]).startswith('((self.index AddWithOverflow Ord::min('), 'the cursor advances by the copied amount', 'ws|cursor-advance', loc=mc.loc())
         rc = wr.calls('ws_stream::MessageCursor::read')
         ctx.ob(len(rc) == 1, 'adapter read has one cursor-read site', 'ws|read-site', loc=wr.loc())
         for c in rc:
             d = show(c.arg(1))
-            ok = re.match(r'^IndexMut<I> for \[T\]>::index_mut\(buf, RangeFrom\{start: bytes_read\}\)$', d) is not None
+            ok = re.match(r'^IndexMut::index_mut\(buf, RangeFrom\{start: bytes_read\}\)$', d) is not None
             ctx.ob(ok, 'each message is read into buf[bytes_read..] (found `%s`)' % d[:80], 'ws|read-offset', loc=c.loc())
         acc = [show(e) for _, e in var_inits(wr, 'bytes_read')]
         ctx.ob(any(a.startswith('((bytes_read AddWithOverflow MessageCursor::read(') for a in acc), 'the running count accumulates what each cursor read returned', 'ws|read-accumulate', loc=wr.loc())
